@@ -327,17 +327,20 @@ func runWalk(o *opa, env walkEnv, c *WalkCase, n int) {
 // ---------------------------------------------------------------- generator
 
 // names of directories above the root and of the root itself: the alphabet of the patterns
-var walkAnc = [][]string{{}, {"a"}, {"b.rego"}, {"ci", "build"}, {"a", "b"}, {".hidden"}, {"gen", "a.rego"}, {"b", "proj"}}
-var walkRootNames = []string{"proj", "a", "b", "a.rego", "b.rego", "build", "gen", ".cfg", "ci"}
+var walkAnc = [][]string{{}, {"a"}, {"b.rego"}, {"ci", "build"}, {"a", "b"}, {".hidden"}, {"gen", "a.rego"}, {"b", "proj"},
+	{"my ci", "50%"}, {"\u00e9"}, {"a#b", "a+b"}}
+var walkRootNames = []string{"proj", "a", "b", "a.rego", "b.rego", "build", "gen", ".cfg", "ci", "my proj", "\u65e5", "a+b"}
 
 // what can be below the root
 var walkEntryU = []string{"a.rego", "b.rego", "a/a.rego", "a/b.rego", "b/a.rego", "b/b.rego", "a/b/b.rego", "a/a/a.rego", "b/a/b.rego",
 	"build/c.rego", "policy/build/d.rego", "policy/b.rego", ".hidden/e.rego", "gen/x.rego", "gen/a/y.rego", "a.rego/b.rego", "b.rego/a/a.rego",
-	"proj/a.rego", "ci/b.rego", "node_modules/m.rego", ".git/g.rego", "a/.idea/i.rego", "data.json", "a/README", "b/a.rego.txt"}
+	"proj/a.rego", "ci/b.rego", "node_modules/m.rego", ".git/g.rego", "a/.idea/i.rego", "data.json", "a/README", "b/a.rego.txt",
+	"a b/c d.rego", "\u00e9/\u65e5.rego", "a#b.rego", "50%/a+b.rego", "a?b/p.rego", "my proj/x.rego"}
 
 var walkPatterns = []string{"a", "b", "a/", "b/", "/a", "/a/", "b.rego", "a.rego", "/b.rego", "a/b.rego", "build", "build/", "/build/", "gen/", "gen",
 	"proj", "proj/", "ci", "c?", "b*", "*", "**", "?", ".*", ".hidden/", "*.rego", "**/a", "a/**", "**/build/**", "policy/", "[ab]", "a.rego/", "/b.rego/",
-	"W/", "W", ""}
+	"W/", "W", "",
+	"a b", "a b/", "/a b/", "\u00e9", "\u00e9/", "\u65e5.rego", "\u65e5", "a#b.rego", "*#*", "50%/", "50%", "a+b", "my proj", "my*", "a?b", "* *", "*+*", "c d.rego"}
 
 func genWalkCases(rng *hutil.Rng, tier string) []*WalkCase {
 	var cases []*WalkCase
@@ -425,17 +428,22 @@ func genWalkCases(rng *hutil.Rng, tier string) []*WalkCase {
 	argForms := []string{"abs", "abs/", ".", "./"}
 	prefixForms := []string{"root", "root/", ""}
 	full := mkTree(walkEntryU)
-	small := mkTree([]string{"a.rego", "policy/b.rego", "build/c.rego", "policy/build/d.rego", ".hidden/e.rego", "a/b.rego"})
+	small := mkTree([]string{"a.rego", "policy/b.rego", "build/c.rego", "policy/build/d.rego", ".hidden/e.rego", "a/b.rego", "a b/c d.rego",
+		"\u00e9/\u65e5.rego", "50%/a+b.rego"})
 
 	// fixed: every ancestor / root name with patterns that name them, all argument and prefix forms, through the function
-	fixedPats := [][]string{{"build/"}, {"a"}, {"c?"}, {".*"}, {"b.rego"}, {"proj", "gen/"}, {"*"}, {"/a"}, {"a.rego/"}, {}}
+	fixedPats := [][]string{{"build/"}, {"a"}, {"c?"}, {".*"}, {"b.rego"}, {"proj", "gen/"}, {"*"}, {"/a"}, {"a.rego/"}, {}, {"a b/", "my*"}, {"\u00e9", "50%/"},
+		{"a+b", "\u65e5"}}
 	k := 0
 	for ai, anc := range walkAnc {
 		for ni, name := range walkRootNames {
 			if tier != "thorough" && (ai+ni)%3 != 0 {
 				continue
 			}
-			for _, fp := range fixedPats {
+			for fi, fp := range fixedPats {
+				if tier != "thorough" && (ai >= 8 || ni >= 9) != (fi >= 10) && (fi+ai+ni)%2 == 1 {
+					continue // quick: the round-3 names and patterns mostly against each other
+				}
 				k++
 				af := argForms[k%len(argForms)]
 				pf := prefixForms[(k/2)%len(prefixForms)]
@@ -461,7 +469,8 @@ func genWalkCases(rng *hutil.Rng, tier string) []*WalkCase {
 		name string
 		pat  []string
 	}{{[]string{"ci", "build"}, "proj", []string{"build/"}}, {[]string{"a"}, "b.rego", []string{"a", "b.rego"}}, {[]string{}, "gen", []string{"gen/"}},
-		{[]string{".hidden"}, "proj", []string{".*"}}, {[]string{"a", "b"}, "a", []string{"/a"}}, {[]string{"b", "proj"}, "ci", []string{"c?", "proj"}}}
+		{[]string{".hidden"}, "proj", []string{".*"}}, {[]string{"a", "b"}, "a", []string{"/a"}}, {[]string{"b", "proj"}, "ci", []string{"c?", "proj"}},
+		{[]string{"my ci", "50%"}, "my proj", []string{"my*", "50%"}}, {[]string{"\u00e9"}, "a+b", []string{"a+b", "\u00e9/"}}}
 	for i, x := range e2e {
 		add("fixed:e2e", "lint", x.anc, x.name, full, "", "abs", []string{"root", "root/"}[i%2], pats{cfg: x.pat, cfgSet: true})
 		add("fixed:e2e", "lint", x.anc, x.name, full, "", "abs", "root", pats{cli: x.pat})
